@@ -454,6 +454,14 @@ func addV(d *pktgen.Desc, clause, key, detail string, replay map[string]any) {
 		detail = key + " :: " + detail
 		key = collapsed[clause]
 	}
+	if _, cr := replay["outer_length_field_shrinks"]; cr && (clause == "C03.wf" || clause == "C03.rt") {
+		detail = key + " :: " + detail
+		key = "packet whose outer length field gets shorter after signing (signature shorter than the signer's estimate) " +
+			map[string]string{"C03.wf": "is not a well-formed TLV", "C03.rt": "does not decode back to its input"}[clause]
+	}
+	if d.ManyEmpty() && strings.Contains(key, "decode fails") {
+		key += " [a name with 4+ zero-length components]"
+	}
 	idx, _ := replay["case_index"].(int64)
 	atomic.AddInt64(&nViol, 1)
 	violCase.Store(idx, true)
@@ -503,22 +511,27 @@ func evalCase(sp *pktgen.Space, idx int64, c pktgen.Case, thorough bool) {
 	if !ok {
 		return
 	}
-	label := sp.Label(c)
+	atomic.AddInt64(&st.perDepth[len(c.Devs)], 1)
+	evalDesc(idx, sp.Label(c), d, len(c.Devs), thorough, false)
+}
+
+// evalDesc builds one description and runs all clauses on it. depth selects the segmentation
+// plan (number of deviations); light = only C03.wf and C03.rt (repeated builds of a sweep case).
+func evalDesc(idx int64, label string, d pktgen.Desc, depth int, thorough, light bool) *pktgen.Built {
 	t0 := time.Now()
 	b := pktgen.Build(&d)
 	t1 := time.Now()
 	atomic.AddInt64(&st.evaluated, 1)
-	atomic.AddInt64(&st.perDepth[len(c.Devs)], 1)
 	replay := map[string]any{"case": label, "desc": d.String(), "case_index": idx}
 	if b.Panic != "" {
 		addV(&d, "C03.wf", "packet API panics: "+b.Panic, "building "+d.String()+" panicked: "+b.Panic, replay)
-		return
+		return b
 	}
 	if b.Err != nil {
 		st.mu.Lock()
 		st.rejected[kind(&d)+": "+errClass(b.Err)]++
 		st.mu.Unlock()
-		return
+		return b
 	}
 	atomic.AddInt64(&st.built, 1)
 	replay["bytes"] = hexCap(b.Bytes)
@@ -551,6 +564,11 @@ func evalCase(sp *pktgen.Space, idx int64, c pktgen.Case, thorough bool) {
 
 	// ---- C03.wf
 	root, werr := pktgen.Walk(b.Bytes)
+	if _, _, shrink, crosses := b.OuterLengths(); crosses && werr != "" && !strings.Contains(werr, "/") {
+		// the signature came out shorter than estimated, the outer length field itself had to
+		// shrink (3 -> 1 or 5 -> 3 bytes) and the walker rejects the OUTER element: one key
+		replay["outer_length_field_shrinks"] = shrink
+	}
 	if werr != "" && (strings.Contains(werr, "0x7/") || strings.Contains(werr, "0x1a/")) {
 		// the walker stopped inside a name / FinalBlockId component: with a 253+-byte component
 		// value in the input, every further symptom of this packet goes under the collapsed key
@@ -574,7 +592,7 @@ func evalCase(sp *pktgen.Space, idx int64, c pktgen.Case, thorough bool) {
 		// whether the API must refuse, repair or faithfully encode it, nor whether the decoder
 		// may then reject it. Every answer is accepted.
 		atomic.AddInt64(&st.mayReject, 1)
-		return
+		return b
 	}
 	if !okRef {
 		addV(&d, "C03.rt", kind(&d)+" contiguous decode fails: "+msg,
@@ -619,6 +637,10 @@ func evalCase(sp *pktgen.Space, idx int64, c pktgen.Case, thorough bool) {
 		}
 	}
 
+	if light {
+		return b
+	}
+
 	// ---- C03.name
 	t2 := time.Now()
 	checkNames(b, root, &d, bigName, replay)
@@ -626,7 +648,7 @@ func evalCase(sp *pktgen.Space, idx int64, c pktgen.Case, thorough bool) {
 	cls := 2
 	if len(b.Bytes) <= 400 {
 		cls = 1
-		if thorough || len(c.Devs) <= 1 {
+		if thorough || depth <= 1 {
 			cls = 0
 		}
 	}
@@ -639,7 +661,6 @@ func evalCase(sp *pktgen.Space, idx int64, c pktgen.Case, thorough bool) {
 	if okRef {
 		n := len(b.Bytes)
 		plan := segPlan{}
-		depth := len(c.Devs)
 		switch {
 		case n <= 400 && (thorough || depth <= 1):
 			plan.full = true
@@ -659,10 +680,11 @@ func evalCase(sp *pktgen.Space, idx int64, c pktgen.Case, thorough bool) {
 			st.maxLen = n
 		}
 		st.mu.Unlock()
-		if _, bad := violCase.Load(idx); !bad && (idx%397 == 0 || (len(c.Devs) == 1 && idx%61 == 0)) {
+		if _, bad := violCase.Load(idx); !bad && (idx%397 == 0 || (depth == 1 && idx%61 == 0)) {
 			samples.Offer(fmt.Sprintf("case %d: %s => %d bytes; walker accepts, contiguous decode equals input, standalone name codec agrees, segmentation sweep run", idx, label, n))
 		}
 	}
+	return b
 }
 
 func runSeg(b *pktgen.Built, root *pktgen.Node, d *pktgen.Desc, plan segPlan, ref *sink, replay map[string]any) {
